@@ -17,12 +17,14 @@ mod c12;
 mod c15;
 mod c16;
 mod common;
+mod genpipe;
 
 pub struct Ctx {
     pub tier: Tier,
     pub seed: u64,
     pub findings: Findings,
     pub replay: Option<serde_json::Value>,
+    pub replay_path: Option<String>,
     pub args: Vec<String>,
 }
 
@@ -38,6 +40,7 @@ fn main() {
         _ => Tier::Quick,
     };
     let mut replay = None;
+    let mut replay_path = None;
     let mut i = 2;
     let mut rest = vec![];
     while i < args.len() {
@@ -55,6 +58,7 @@ fn main() {
                 let p = args.get(i).expect("--replay needs a path");
                 let text = std::fs::read_to_string(p).expect("read replay file");
                 replay = Some(serde_json::from_str(&text).expect("parse replay file"));
+                replay_path = Some(p.clone());
             }
             o => rest.push(o.to_string()),
         }
@@ -65,10 +69,12 @@ fn main() {
         seed: env_seed(),
         findings: Findings::load(),
         replay,
+        replay_path,
         args: rest,
     };
     let code = match id.as_str() {
         "C01" => c01::run(&ctx),
+        "C02" => genpipe::run_gent_check(&ctx, "C02"),
         "C03" => c03::run(&ctx),
         "C04" => c04::run(&ctx),
         "C07" => c07::run(&ctx),
